@@ -12,7 +12,7 @@ from ..universe import make_event, PK
 
 ID = "C05"
 LEVEL = "model_checking"
-ASSUMPTIONS = ["see C09; scheduling points as described in nrmc/explorer.py (asyncio batch structure, thread completions between handles)"]
+ASSUMPTIONS = ["real nostr_relay code imported from /repo's working tree, driven through web.start_client / the storage API; SQLite runs for real behind a same-thread connection shim (bound to real aiosqlite by C06's conformance cases); LMDB is an in-memory double (bound to the real liblmdb by C10's conformance cases), msgpack is pip's pure-python codec; asyncio runs on a controlled virtual-time loop; scheduling points as described in nrmc/explorer.py (asyncio batch structure, thread completions between handles)"]
 CHUNK = 1
 
 P0 = make_event("A", 1, 90, [], "pre-stored 0")
